@@ -283,4 +283,237 @@ def requestAddNodes (d : Decl) (v : Nat) (q : Period) : Except String (List (Exc
       let subs ← q.subperiods vv.unit
       .ok (subs.map (fun s => requestNode d v s))
 
+
+/-! ## The extended formula language: DIVIDE reads and parameters
+
+`Simulation.calculate_divide` / `population(w, q, options=[DIVIDE])` and `parameters(instant).a.b`
+are added WITHOUT touching the definitions above (the household-equivariance proofs of C11 are
+about them): the concrete syntax stays `DExpr`, two reserved unary codes carry the new forms,
+
+* `op1 900 (var w pt _)`  — `floor(population(w, pt(period), options=[DIVIDE]))`
+* `op1 901 (var i pt _)`  — `parameters(pt(period)).<i-th parameter>` (a scalar, broadcast)
+
+and `xelabExpr` elaborates them (`elabDivide`, `elabParam`); every other expression elaborates as
+before (`xelabExpr_plain` in `Lemmas/RuleSysCoherent.lean`).
+
+DIVIDE on integers: the code returns `calculate(w, c) / n` with `c` the definition-period-long
+period around the start of `q` and `n` the size of `c` in units of `q` (12 for a yearly variable
+asked for a month, 365/366 for a day, 28–31 for a monthly variable asked for a day, 1 when the
+units agree).  Formulas of the language consume the share through `floor`, so that values stay
+integers: node-level code `XDIV + n` is the floor division by `n`.  (Exactness of the float
+computation: for an integer |x| < 2²² and 1 ≤ n ≤ 366 the float32 quotient differs from x/n by
+at most 2⁻²⁴·|x|/n < 1/(4n), while x/n is either an integer — then the quotient is exact — or at
+least 1/n away from every integer: the computed quotient never crosses an integer and its floor
+is ⌊x/n⌋.  The harness generates on that lattice; a top-level `calculate_divide` is compared
+exactly, as numerators over the denominator.)
+-/
+
+/-- a declarative system with dated parameters: `params[i]` lists `(start ordinal, value)` -/
+structure XDecl extends Decl where
+  params : List (List (Int × Int)) := []
+  outputs : List Nat := []       -- `calculate_output` attribute of each variable: 1 = calculate_output_add,
+                                 -- 2 = calculate_output_divide, anything else / missing = none
+deriving Repr, Inhabited
+
+/-- `calculate_divide`: the period the variable is computed for (`calculation_period`) -/
+def divPeriod (u : DUnit) (q : Period) : Except String Period :=
+  match u with
+  | .year => q.thisYear
+  | .month => q.firstMonth
+  | .day => .ok q.firstDay
+  | .week => q.firstWeek
+  | .weekday => .ok q.firstWeekday
+  | .eternity => .error "eternal"
+
+/-- `calculate_divide`: the denominator, the size of that period in units of the requested one -/
+def divDenominator (u : DUnit) (c : Period) : Except String Int :=
+  match u with
+  | .year => c.sizeInYears
+  | .month => c.sizeInMonths
+  | .day => c.sizeInDays
+  | .week => c.sizeInWeeks
+  | .weekday => c.sizeInWeekdays
+  | .eternity => .error "eternal"
+
+/-- node-level unary codes `XDIV + n`: floor division by `n` -/
+def XDIV : Nat := 1000000
+
+/-- the guards of `calculate_divide`, then the served node and the denominator -/
+def divideTarget (d : Decl) (w : Nat) (q : Period) : Except String (Node Period × Nat) :=
+  match d.vars[w]? with
+  | none => .error "unknown"
+  | some wv =>
+    if unitWeight wv.unit < unitWeight q.unit ∨ q.size > 1 then .error "weight"
+    else if wv.unit = .eternity then .error "eternal"
+    else if q.unit = .eternity ∨ q.size ≠ 1 then .error "eternal-period"
+    else match divPeriod wv.unit q with
+      | .error e => .error e
+      | .ok c =>
+        match divDenominator q.unit c with
+        | .error e => .error e
+        | .ok n =>
+          if n ≤ 0 then .error "denominator"
+          else match servedPeriod wv.unit c with
+            | .error e => .error e
+            | .ok c' => .ok ((w, c'), n.toNat)
+
+/-- `floor(population(w, q, options=[DIVIDE]))` elaborated to node level -/
+def elabDivide (d : Decl) (w : Nat) (q : Except String Period) : Expr Period :=
+  match q with
+  | .error _ => .bad
+  | .ok q =>
+    match divideTarget d w q with
+    | .error _ => .bad
+    | .ok (k, n) => .op1 (XDIV + n) (.ref k.1 k.2)
+
+/-- one step of the scan for the latest dated value on or before `o` -/
+def latestStep (o : Int) (best : Option (Int × Int)) (f : Int × Int) : Option (Int × Int) :=
+  if f.1 ≤ o then
+    match best with
+    | none => some f
+    | some b => if b.1 ≤ f.1 then some f else some b
+  else best
+
+/-- `Parameter.get_at_instant`: the value with the greatest start on or before the instant -/
+def paramAt (tbl : List (Int × Int)) (o : Int) : Option Int :=
+  (tbl.foldl (latestStep o) none).map (·.2)
+
+/-- the value `parameters(q).<i>` reads: at the START of `q`; none for an unknown parameter, an
+    instant that cannot be built, or a parameter with no value yet at that instant
+    (`ParameterNotFoundError`) -/
+def paramValue (x : XDecl) (i : Nat) (q : Except String Period) : Option Int :=
+  match x.params[i]?, q with
+  | none, _ => none
+  | _, .error _ => none
+  | some tbl, .ok q => if q.unit = .eternity then none else paramAt tbl (ord q.start)
+
+def elabParam (x : XDecl) (ent : Nat) (i : Nat) (q : Except String Period) : Expr Period :=
+  match paramValue x i q with
+  | none => .bad
+  | some k => .const (List.replicate (x.size ent) k)
+
+def OP_DIVIDE : Nat := 900
+def OP_PARAM : Nat := 901
+
+/-- the two reserved forms -/
+def specialOp (x : XDecl) (ent : Nat) (p : Period) (o : Nat) : DExpr → Option (Expr Period)
+  | .var w pt _ =>
+    if o = OP_DIVIDE then
+      some (match x.vars[w]? with
+        | none => .bad
+        | some wv => if wv.entity = ent then elabDivide x.toDecl w (applyPT p pt) else .bad)
+    else if o = OP_PARAM then some (elabParam x ent w (applyPT p pt))
+    else none
+  | .const _ => none
+  | .op1 _ _ => none
+  | .op2 _ _ _ => none
+  | .fail _ _ => none
+
+/-- elaboration of the extended language -/
+def xelabExpr (x : XDecl) (ent : Nat) (p : Period) : DExpr → Expr Period
+  | .const k => .const (List.replicate (x.size ent) k)
+  | .var w pt add =>
+    match x.vars[w]? with
+    | none => .bad
+    | some wv => if wv.entity = ent then elabRead x.toDecl w (applyPT p pt) add else .bad
+  | .op1 o a =>
+    match specialOp x ent p o a with
+    | some e => e
+    | none => .op1 o (xelabExpr x (if o = 1 ∨ isRoleOp o = true then 0 else if o = 2 ∨ isProjOp o = true then 1 else ent) p a)
+  | .op2 o a b => .op2 o (xelabExpr x ent p a) (xelabExpr x ent p b)
+  | .fail id a => .fail id (xelabExpr x ent p a)
+
+/-- unary operations of the extended language -/
+def xf1 (d : Decl) (o : Nat) (v : Val) : Val :=
+  if XDIV < o then v.map (fun a => a / ((o - XDIV : Nat) : Int)) else f1 d o v
+
+/-- the node-level system of an extended declaration -/
+def xelabSys (x : XDecl) (armed : List Nat) : Sys Period :=
+  { elabSys x.toDecl armed with
+    formula := fun v p => match x.vars[v]? with
+      | none => none
+      | some vv => (formulaInForce vv (startOrdOf p)).map (xelabExpr x vv.entity p)
+    f1 := xf1 x.toDecl }
+
+/-- which request `Simulation.calculate_output(v, q)` forwards to -/
+inductive OutKind | plain | add | divide
+deriving DecidableEq, Repr
+
+def outputKind (x : XDecl) (v : Nat) : OutKind :=
+  match x.outputs[v]? with
+  | some 1 => .add
+  | some 2 => .divide
+  | _ => .plain
+
+/-- a top-level `Simulation.calculate_divide(v, q)`: the node requested and the denominator -/
+def requestDivNode (d : Decl) (v : Nat) (q : Period) : Except String (Node Period × Nat) := divideTarget d v q
+
+/-- the parameters the formula in force at a node reads, in evaluation order, with the instant
+    (as an ordinal) and the value read — what the full tracer records in `TraceNode.parameters`;
+    a read that raises ends the list (the formula stops there) -/
+def paramReadsE (x : XDecl) (p : Period) : DExpr → List (Nat × Int × Int) × Bool
+  | .const _ => ([], true)
+  | .var _ _ _ => ([], true)
+  | .op1 o a =>
+    match a with
+    | .var i pt _ =>
+      if o = OP_PARAM then
+        match paramValue x i (applyPT p pt), applyPT p pt with
+        | some k, .ok q => ([(i, ord q.start, k)], true)
+        | _, _ => ([], false)
+      else ([], true)
+    | .const _ => ([], true)
+    | .op1 _ _ => paramReadsE x p a
+    | .op2 _ _ _ => paramReadsE x p a
+    | .fail _ _ => paramReadsE x p a
+  | .op2 _ a b =>
+    let (ra, oka) := paramReadsE x p a
+    if oka then let (rb, okb) := paramReadsE x p b; (ra ++ rb, okb) else (ra, false)
+  | .fail _ a => paramReadsE x p a
+
+/-! ## operations on the stored values between requests
+
+`Simulation.get_array`, `Simulation.delete_arrays`, `Simulation.set_input` act on the holder's
+store.  In the model the store is the cache plus the declared inputs. -/
+
+/-- `Simulation.get_array(v, q)`: the stored value, if any (no calculation) -/
+def getArray (sys : Sys Period) (s : St Period) (k : Node Period) : Option Val :=
+  match lookup s.cache (sys.slot k) with
+  | some (x, _) => some x
+  | none => sys.input k.1 k.2
+
+/-- is the stored period `k` deleted by `delete_arrays(q)`?  (`q.contains(k)`; an eternal
+    variable has one slot, deleted by any period) -/
+def deletes (eternal : Bool) (q k : Period) : Bool :=
+  eternal || (match q.contains k with | .ok b => b | .error _ => false)
+
+def isEternalVar (d : Decl) (v : Nat) : Bool :=
+  match d.vars[v]? with
+  | some vv => decide (vv.unit = .eternity)
+  | none => false
+
+/-- `Simulation.delete_arrays(v, q)` (`q = none`: every period) on the computed values -/
+def deleteCached (d : Decl) (v : Nat) (q : Option Period) (c : Cache Period) : Cache Period :=
+  c.filter (fun e => !(e.1.1 = v && (match q with | none => true | some q => deletes (isEternalVar d v) q e.1.2)))
+
+/-- … and on the inputs -/
+def deleteInputs (d : Decl) (v : Nat) (q : Option Period) : List (Nat × Period × Val) :=
+  d.inputs.filter (fun i => !(i.1 = v && (match q with | none => true | some q => deletes (isEternalVar d v) q i.2.1)))
+
+/-- `Simulation.set_input(v, q, x)`: refused for a period that is not one definition period long
+    (`PeriodMismatchError`), ignored past the variable's end and for a neutralised variable;
+    otherwise the value replaces whatever was stored under the slot -/
+inductive SetOutcome | refused | ignored | stored
+deriving DecidableEq, Repr
+
+def setInputOutcome (d : Decl) (v : Nat) (q : Period) : SetOutcome :=
+  match d.vars[v]? with
+  | none => .refused
+  | some vv =>
+    if (match vv.endOrd with | some e => decide (q.unit ≠ DUnit.eternity ∧ ord q.start > e) | none => false) then .ignored
+    else if q.unit = DUnit.eternity ∧ vv.unit ≠ DUnit.eternity then .refused
+    else if vv.neutralized then .ignored
+    else if vv.unit ≠ DUnit.eternity ∧ (vv.unit ≠ q.unit ∨ q.size > 1) then .refused
+    else .stored
+
 end OFCore.RuleSys
